@@ -183,7 +183,7 @@ def subset_round(rep, pid, cases, tier):
             if o2['status'] == 'ok':
                 fails += [('alias', f) for f in SM.alias_probe([o2['parent']], o2['result'])]
         for sig, f in fails[:1]:
-            if o['status'] != 'ok':
+            if o['status'] != 'ok' and sig not in ('inputs', 'alias'):
                 sig = 'raise:' + (o.get('error') or o['status']).split('(')[0]
             rep.failure('%s: %s' % (sig, f), {'tag': region + '/' + sig, 'suite': 'subset',
                                               'case': c, 'dim': dim, 'idx': idx, 'error': o.get('error')})
